@@ -211,6 +211,8 @@ class RxWorld(worlds.World):
             self.got.append((hdr, msg))
         on_msg.__qualname__ = "rx.on_msg"
         self.sock.subscribe_on_message_received(on_msg)
+        # (an application - the API layer on every init() - may subscribe the same callable again: still once each)
+        self.sock.subscribe_on_message_received(on_msg)
 
         async def on_conn(*, connected):
             # a connection subscriber that takes a few loop iterations, like the API layer's (which sends requests)
